@@ -918,6 +918,10 @@ end:
 			continue end
 		case sh > suffrageHeight:
 			continue end
+		case sh < suffrageHeight:
+			// NOTE temps are ordered from the latest; older temps and the
+			// permanent database only hold lower suffrage heights.
+			return nil, nil, false, nil
 		}
 
 		switch j, found, err := temp.SuffrageProof(); {
